@@ -563,6 +563,190 @@ theorem expr_matches (cp : Bool) (env : Nat → Nat × Int)
           · simp [hint] at h
 
 
+/-! ## Expressions with Python int literals on either side -/
+
+/-- Expressions over integer Vars **and Python int literals** on either side of an operator. -/
+inductive ExprS
+  | var (i : Nat)
+  | bin (op : Op) (l r : ExprS)
+  | binR (op : Op) (l : ExprS) (v : Int)
+  | binL (op : Op) (v : Int) (r : ExprS)
+
+def ExprS.intOnly : ExprS → Bool
+  | .var _ => true
+  | .bin op l r => intOps.contains op && l.intOnly && r.intOnly
+  | .binR op l _ => intOps.contains op && l.intOnly
+  | .binL op _ r => intOps.contains op && r.intOnly
+
+/-- numpy (version 2 rules): a Python int next to an integer array takes the array's element type and must be
+    representable in it (otherwise OverflowError: `none`). -/
+def npExprS (env : Nat → Nat × Int) : ExprS → Option (Nat × Int)
+  | .var i => some (env i)
+  | .bin op l r =>
+      match npExprS env l, npExprS env r with
+      | some (dl, x), some (dr, y) =>
+          (match info.rt2 dl dr with
+           | some t =>
+               if !info.integer t then none
+               else if op == .floordiv && (y == 0 || (x == intMin t && y == -1)) then none
+               else some (t, npInt info op t x y)
+           | none => none)
+      | _, _ => none
+  | .binR op l v =>
+      match npExprS env l with
+      | some (dl, x) =>
+          if !inRange info dl v then none
+          else if op == .floordiv && (v == 0 || (x == intMin dl && v == -1)) then none
+          else some (dl, npInt info op dl x v)
+      | none => none
+  | .binL op v r =>
+      match npExprS env r with
+      | some (dr, y) =>
+          if !inRange info dr v then none
+          else if op == .floordiv && (y == 0 || (v == intMin dr && y == -1)) then none
+          else some (dr, npInt info op dr v y)
+      | none => none
+
+/-- spox, promotion and constant promotion on: each application dispatched on the operand kinds alone. -/
+def spoxExprS (env : Nat → Nat × Int) : ExprS → Option (Nat × Int)
+  | .var i => some (env i)
+  | .bin op l r =>
+      match spoxExprS env l, spoxExprS env r with
+      | some (dl, x), some (dr, y) =>
+          (match dispatch info (some (true, true)) op (.var dl) (.var dr) with
+           | .ok (tree, _) => eval info (.var dl) (.var dr) x y tree
+           | .error _ => none)
+      | _, _ => none
+  | .binR op l v =>
+      match spoxExprS env l with
+      | some (dl, x) =>
+          (match dispatch info (some (true, true)) op (.var dl) (.pyInt v) with
+           | .ok (tree, _) => eval info (.var dl) (.pyInt v) x v tree
+           | .error _ => none)
+      | none => none
+  | .binL op v r =>
+      match spoxExprS env r with
+      | some (dr, y) =>
+          (match dispatch info (some (true, true)) op (.pyInt v) (.var dr) with
+           | .ok (tree, _) => eval info (.pyInt v) (.var dr) v y tree
+           | .error _ => none)
+      | none => none
+
+theorem ints_bits : ∀ t ∈ ints, 1 ≤ info.bits t := by decide +kernel
+
+theorem npInt_inRange (op : Op) (hop : op ∈ intOps) (t : Nat) (ht : t ∈ ints) (x y : Int) :
+    inRange info t (npInt info op t x y) = true := by
+  have hbits := ints_bits t ht
+  simp only [intOps, List.mem_cons, List.not_mem_nil, or_false] at hop
+  rcases hop with rfl | rfl | rfl | rfl <;> exact wrap_inRange info t hbits _
+
+/-- **Agreement with numpy composes over expressions with Python int literals on either side**:
+    wherever numpy computes an integer result (every literal representable in the element type it meets),
+    the graph spox emits computes the same element type and value, every intermediate included. -/
+theorem expr_scalars_match (env : Nat → Nat × Int)
+    (henv : ∀ i, (env i).1 ∈ ints ∧ inRange info (env i).1 (env i).2 = true) :
+    ∀ (e : ExprS), e.intOnly = true → ∀ t v, npExprS env e = some (t, v) →
+      t ∈ ints ∧ inRange info t v = true ∧ spoxExprS env e = some (t, v)
+  | .var i, _, t, v, h => by
+    simp only [npExprS, Option.some.injEq] at h
+    have := henv i
+    rw [h] at this
+    exact ⟨this.1, this.2, by simp [spoxExprS, h]⟩
+  | .bin op l r, hio, t, v, h => by
+    simp only [ExprS.intOnly, Bool.and_eq_true, List.contains_iff_mem] at hio
+    obtain ⟨⟨hop, hl⟩, hr⟩ := hio
+    simp only [npExprS] at h
+    cases hnl : npExprS env l with
+    | none => simp [hnl] at h
+    | some pl =>
+      cases hnr : npExprS env r with
+      | none => simp [hnl, hnr] at h
+      | some pr =>
+        obtain ⟨dl, x⟩ := pl
+        obtain ⟨dr, y⟩ := pr
+        obtain ⟨hdl, hxr, hsl⟩ := expr_scalars_match env henv l hl dl x hnl
+        obtain ⟨hdr, hyr, hsr⟩ := expr_scalars_match env henv r hr dr y hnr
+        simp only [hnl, hnr] at h
+        cases hrt : info.rt2 dl dr with
+        | none => simp [hrt] at h
+        | some t' =>
+          simp only [hrt] at h
+          by_cases hint : info.integer t' = true
+          · simp only [hint, Bool.not_true, Bool.false_eq_true, if_false] at h
+            by_cases hdz : (op == .floordiv && (y == 0 || (x == intMin t' && y == -1))) = true
+            · simp [hdz] at h
+            · simp only [hdz, Bool.false_eq_true, if_false, Option.some.injEq, Prod.mk.injEq] at h
+              obtain ⟨rfl, rfl⟩ := h
+              have hclosed := int_closed dl hdl dr hdr
+              simp only [hrt, hint, Bool.not_true, Bool.false_or, List.contains_iff_mem] at hclosed
+              have hdiv : op = .floordiv → y ≠ 0 ∧ ¬(x = intMin t' ∧ y = -1) := by
+                intro ho
+                subst ho
+                simp only [beq_self_eq_true, Bool.true_and, Bool.or_eq_true, beq_iff_eq, Bool.and_eq_true,
+                  not_or, not_and] at hdz
+                exact ⟨hdz.1, fun hh => hdz.2 hh.1 hh.2⟩
+              obtain ⟨tree, hd, he⟩ := arith_matches true op hop dl dr hdl hdr t' hrt hint x y hxr hyr hdiv
+              exact ⟨hclosed, npInt_inRange op hop t' hclosed x y, by simp only [spoxExprS, hsl, hsr, hd, he]⟩
+          · simp [hint] at h
+  | .binR op l c, hio, t, v, h => by
+    simp only [ExprS.intOnly, Bool.and_eq_true, List.contains_iff_mem] at hio
+    obtain ⟨hop, hl⟩ := hio
+    simp only [npExprS] at h
+    cases hnl : npExprS env l with
+    | none => simp [hnl] at h
+    | some pl =>
+      obtain ⟨dl, x⟩ := pl
+      obtain ⟨hdl, hxr, hsl⟩ := expr_scalars_match env henv l hl dl x hnl
+      simp only [hnl] at h
+      by_cases hc : inRange info dl c = true
+      · simp only [hc, Bool.not_true, Bool.false_eq_true, if_false] at h
+        by_cases hdz : (op == .floordiv && (c == 0 || (x == intMin dl && c == -1))) = true
+        · simp [hdz] at h
+        · simp only [hdz, Bool.false_eq_true, if_false, Option.some.injEq, Prod.mk.injEq] at h
+          obtain ⟨rfl, rfl⟩ := h
+          have hdiv : op = .floordiv → c ≠ 0 ∧ ¬(x = intMin dl ∧ c = -1) := by
+            intro ho
+            subst ho
+            simp only [beq_self_eq_true, Bool.true_and, Bool.or_eq_true, beq_iff_eq, Bool.and_eq_true,
+              not_or, not_and] at hdz
+            exact ⟨hdz.1, fun hh => hdz.2 hh.1 hh.2⟩
+          obtain ⟨tree, hd, he⟩ := arith_scalar_right true (by simp) op hop dl hdl x c hxr hc hdiv
+          exact ⟨hdl, npInt_inRange op hop dl hdl x c, by simp only [spoxExprS, hsl, hd, he]⟩
+      · simp [hc] at h
+  | .binL op c r, hio, t, v, h => by
+    simp only [ExprS.intOnly, Bool.and_eq_true, List.contains_iff_mem] at hio
+    obtain ⟨hop, hr⟩ := hio
+    simp only [npExprS] at h
+    cases hnr : npExprS env r with
+    | none => simp [hnr] at h
+    | some pr =>
+      obtain ⟨dr, y⟩ := pr
+      obtain ⟨hdr, hyr, hsr⟩ := expr_scalars_match env henv r hr dr y hnr
+      simp only [hnr] at h
+      by_cases hc : inRange info dr c = true
+      · simp only [hc, Bool.not_true, Bool.false_eq_true, if_false] at h
+        by_cases hdz : (op == .floordiv && (y == 0 || (c == intMin dr && y == -1))) = true
+        · simp [hdz] at h
+        · simp only [hdz, Bool.false_eq_true, if_false, Option.some.injEq, Prod.mk.injEq] at h
+          obtain ⟨rfl, rfl⟩ := h
+          have hdiv : op = .floordiv → y ≠ 0 ∧ ¬(c = intMin dr ∧ y = -1) := by
+            intro ho
+            subst ho
+            simp only [beq_self_eq_true, Bool.true_and, Bool.or_eq_true, beq_iff_eq, Bool.and_eq_true,
+              not_or, not_and] at hdz
+            exact ⟨hdz.1, fun hh => hdz.2 hh.1 hh.2⟩
+          obtain ⟨tree, hd, he⟩ := arith_scalar_left true (by simp) op hop dr hdr c y hc hyr hdiv
+          exact ⟨hdr, npInt_inRange op hop dr hdr c y, by simp only [spoxExprS, hsr, hd, he]⟩
+      · simp [hc] at h
+
+-- non-vacuity: (x0 // 2 - 3) * x1 with x0 : int8 = -7, x1 : int32 = 5, and 100 - x0
+example : npExprS (fun i => if i = 0 then (0, -7) else (2, 5))
+    (.bin .mul (.binR .sub (.binR .floordiv (.var 0) 2) 3) (.var 1)) = some (2, -35) := by decide +kernel
+example : npExprS (fun _ => (0, -7)) (.binL .sub 100 (.var 0)) = some (0, 107) := by decide +kernel
+-- a literal that does not fit the element type it meets: numpy raises OverflowError
+example : npExprS (fun _ => (0, -7)) (.binR .add (.var 0) 1000) = none := by decide +kernel
+
+
 /-! ## Scoping: after any blocks the previous settings are in force again -/
 
 theorem probesList_append (cur : Option (Bool × Bool)) (xs ys : List Scoped) :
